@@ -240,3 +240,72 @@ impl StreamFixture {
         )
     }
 }
+
+// ---- the unit's HTTP pages for this connection (property C06: the HTTP API
+// ---- keeps working whatever bytes the router sent) ------------------------
+
+impl StreamFixture {
+    /// The path prefix the pages are served under.
+    pub const HTTP_API_PATH: &'static str = "/routers/";
+
+    async fn verif_finish(
+        res: Option<hyper::Response<hyper::Body>>,
+    ) -> Option<(u16, Vec<u8>)> {
+        let res = res?;
+        let status = res.status().as_u16();
+        let body = hyper::body::to_bytes(res.into_body()).await.ok()?;
+        Some((status, body.to_vec()))
+    }
+
+    /// `GET /routers/` through the real `RouterListApi::process_request`,
+    /// wired to this connection's maps and metrics as `BmpTcpIn::run` wires
+    /// it. None = the processor did not answer.
+    pub async fn http_get_router_list(&self) -> Option<(u16, Vec<u8>)> {
+        use crate::http::ProcessRequest;
+        let api = super::http::RouterListApi::new(
+            crate::http::Resources::default(),
+            Arc::new(Self::HTTP_API_PATH.to_string()),
+            self.router_info.clone(),
+            self.conn_metrics.clone(),
+            self.bmp_metrics.clone(),
+            Arc::new(ArcSwap::from_pointee(
+                BmpTcpIn::default_router_id_template(),
+            )),
+            self.router_states.clone(),
+            self.register.clone(),
+        );
+        let req = hyper::Request::builder()
+            .method(hyper::Method::GET)
+            .uri(Self::HTTP_API_PATH)
+            .body(hyper::Body::empty())
+            .ok()?;
+        Self::verif_finish(api.process_request(&req).await).await
+    }
+
+    /// `GET /routers/<ingress id of the router>` through the real
+    /// `RouterInfoApi::process_request`, built as
+    /// `setup_router_specific_api_endpoint` builds it (weak reference to the
+    /// connection's state machine, the times of its `RouterInfo`).
+    pub async fn http_get_router_info(&self) -> Option<(u16, Vec<u8>)> {
+        use crate::http::ProcessRequest;
+        let info = self.router_info.get(&self.router_id)?;
+        let api = super::http::RouterInfoApi::new(
+            crate::http::Resources::default(),
+            Arc::new(Self::HTTP_API_PATH.to_string()),
+            self.router_id,
+            self.conn_metrics.clone(),
+            self.bmp_metrics.clone(),
+            info.connected_at,
+            info.last_msg_at.clone(),
+            Arc::downgrade(&self.state),
+            self.register.clone(),
+        );
+        let uri = format!("{}{}", Self::HTTP_API_PATH, self.router_id);
+        let req = hyper::Request::builder()
+            .method(hyper::Method::GET)
+            .uri(uri)
+            .body(hyper::Body::empty())
+            .ok()?;
+        Self::verif_finish(api.process_request(&req).await).await
+    }
+}
